@@ -16,9 +16,13 @@
 (* position that lags, transactional mode stores it with the data.              *)
 (*                                                                              *)
 (* Offsets count commands: "offset n" = n commands of the stream are known.     *)
-(* The stream is 1, 2, 3, ...; a fail-over keeps the data and the numbering     *)
-(* (Redis: replid2 / second_replid_offset).  A snapshot taken at offset m holds *)
-(* 1..m.  tgt is the list the target holds.                                     *)
+(* Command n written under history id w is the element <<n, w>>.  A fail-over   *)
+(* promotes a replica that has the first k commands (k may be smaller than what *)
+(* the old master had sent to the tool): the numbering continues, the previous  *)
+(* id stays valid up to k (Redis: replid2 / second_replid_offset), and what the *)
+(* old master wrote beyond k is not part of the new history.  A snapshot taken  *)
+(* at offset m holds the elements 1..m of the history at that moment.  tgt is   *)
+(* the list the target holds.                                                   *)
 (*                                                                              *)
 (* The step logic is written as operators over a state record (xF with guard    *)
 (* xE) so that the trace specification (trace/TracePipeline.tla) can compose    *)
@@ -29,7 +33,10 @@ CONSTANTS MaxLen,        \* commands the source writes
           MaxFailovers,  \* 0..2
           MaxLose,       \* backlog losses
           MaxEnds,       \* run ends without another cause
-          Txn            \* TRUE: position stored with the data; FALSE: ticker-driven
+          Txn,           \* TRUE: position stored with the data; FALSE: ticker-driven
+          FixSameId,     \* TRUE: the cache is trusted only when it carries the id of the stored position (88be5eb)
+          FixVoid,       \* TRUE: the stored position is void while a snapshot is replayed (d612a69)
+          MaxCacheLoss   \* process restarts that lose the cache (memory cache, incomplete rdb file)
 
 Ids == <<"A", "B", "C">>
 None == "none"
@@ -38,23 +45,26 @@ VARIABLES src, cache, cp, run, tgt, cnt
 vars == <<src, cache, cp, run, tgt, cnt>>
 
 St == [src |-> src, cache |-> cache, cp |-> cp, run |-> run, tgt |-> tgt, cnt |-> cnt]
+Is(s) == /\ src = s.src /\ cache = s.cache /\ cp = s.cp /\ run = s.run /\ tgt = s.tgt /\ cnt = s.cnt
 Become(s) == /\ src' = s.src /\ cache' = s.cache /\ cp' = s.cp /\ run' = s.run /\ tgt' = s.tgt /\ cnt' = s.cnt
 
 Init ==
-  /\ src = [id1 |-> "A", id2 |-> None, second |-> -1, len |-> 0, bl |-> 1, gen |-> 1]
-  /\ cache = [id |-> None, l |-> -1, r |-> -1, snap |-> FALSE]
+  /\ src = [id1 |-> "A", id2 |-> None, id3 |-> None, second |-> -1, len |-> 0, bl |-> 1, gen |-> 1, log |-> <<>>]
+  /\ cache = [id |-> None, l |-> -1, r |-> -1, snap |-> FALSE, w |-> <<>>, sw |-> <<>>]
   /\ cp = [id |-> None, off |-> -1]
-  /\ run = [up |-> FALSE, phase |-> "idle", rd |-> -1, last |-> [kind |-> "none"]]
+  /\ run = [up |-> FALSE, link |-> FALSE, phase |-> "idle", rd |-> -1, from |-> 0, last |-> [kind |-> "none"]]
   /\ tgt = <<>>
-  /\ cnt = [lose |-> 0, ends |-> 0]
+  /\ cnt = [lose |-> 0, ends |-> 0, closs |-> 0]
 
 (* ---------------------------- the source ---------------------------- *)
 WriteE(s) == s.src.len < MaxLen
-WriteF(s) == [s EXCEPT !.src.len = @ + 1]
+WriteF(s) == [s EXCEPT !.src.len = @ + 1, !.src.log = Append(@, s.src.id1)]
 
-FailoverE(s) == s.src.gen <= MaxFailovers
-FailoverF(s) == [s EXCEPT !.src = [@ EXCEPT !.id2 = s.src.id1, !.second = s.src.len + 1, !.id1 = Ids[s.src.gen + 1], !.gen = @ + 1],
-                          !.run.up = FALSE, !.run.phase = "idle"]     \* the old master's connections die
+\* the promoted replica holds the first k commands
+FailoverE(s, k) == s.src.gen <= MaxFailovers /\ k \in 0..s.src.len
+FailoverF(s, k) == [s EXCEPT !.src = [@ EXCEPT !.id2 = s.src.id1, !.id3 = s.src.id2, !.second = k + 1, !.id1 = Ids[s.src.gen + 1], !.gen = @ + 1,
+                                               !.len = k, !.log = SubSeq(s.src.log, 1, k)],
+                             !.run.link = FALSE]     \* the old master's connections die; the output works on with what is cached
 
 LoseE(s) == s.cnt.lose < MaxLose
 LoseF(s) == [s EXCEPT !.src.bl = s.src.len + 2, !.cnt.lose = @ + 1]
@@ -69,17 +79,21 @@ Psync(sr, id, off) ==
   ELSE [full |-> FALSE, id |-> sr.id1, off |-> off]
 
 (* ----------------------------- one run ------------------------------ *)
-InputIds(s) == {s.src.id1, s.src.id2} \ {None}
-LocSp(s) == IF s.cache.id \in InputIds(s) THEN [id |-> s.cache.id, off |-> s.cache.r] ELSE [id |-> "?", off |-> -1]
+\* syncMeta asks the source for its ids (INFO) first and sends PSYNC afterwards: a fail-over in between leaves it with
+\* the ids of the old master (info) while the answer comes from the new one
+Infos(s) == {[id1 |-> s.src.id1, id2 |-> s.src.id2]}
+            \cup (IF s.src.id2 # None THEN {[id1 |-> s.src.id2, id2 |-> s.src.id3]} ELSE {})
+InputIds(info) == {info.id1, info.id2} \ {None}
+LocSp(s, info) == IF s.cache.id \in InputIds(info) THEN [id |-> s.cache.id, off |-> s.cache.r] ELSE [id |-> "?", off |-> -1]
 InRange(s, off) == s.cache.id # None /\
                    ((s.cache.l <= off /\ off <= s.cache.r) \/ (s.cache.l >= off /\ s.cache.snap))
-OutSp(s) == IF s.cp.id \in InputIds(s) THEN s.cp ELSE [id |-> "?", off |-> -1]
+OutSp(s, info) == IF s.cp.id \in InputIds(info) THEN s.cp ELSE [id |-> "?", off |-> -1]
 
 \* syncMeta (input.go): which request is sent and what becomes of the cache
-Decide(s) ==
-  LET o == OutSp(s)  loc == LocSp(s) IN
+Decide(s, info) ==
+  LET o == OutSp(s, info)  loc == LocSp(s, info) IN
   IF o.id # "?" /\ loc.id # "?" THEN
-     IF o.id = loc.id /\ InRange(s, o.off)
+     IF (FixSameId => o.id = loc.id) /\ InRange(s, o.off)
      THEN [req |-> loc, clear |-> FALSE, readAt |-> o.off, local |-> FALSE, br |-> "1a"]
      ELSE [req |-> o, clear |-> TRUE, readAt |-> o.off, local |-> FALSE, br |-> "1b"]
   ELSE IF o.id # "?" THEN [req |-> o, clear |-> TRUE, readAt |-> o.off, local |-> FALSE, br |-> "2"]
@@ -89,87 +103,132 @@ Decide(s) ==
   ELSE [req |-> [id |-> "?", off |-> -1], clear |-> FALSE, readAt |-> -1, local |-> FALSE, br |-> "4"]
 
 ConnectE(s) == ~s.run.up
-ConnectF(s) ==
-  LET d == Decide(s)
+ConnectF(s, info) ==
+  LET d == Decide(s, info)
       p == Psync(s.src, d.req.id, d.req.off)
-      c2 == IF p.full THEN [id |-> p.id, l |-> p.off, r |-> p.off, snap |-> TRUE]
-            ELSE IF d.clear THEN [id |-> p.id, l |-> d.req.off, r |-> d.req.off, snap |-> FALSE]
-            ELSE [s.cache EXCEPT !.id = p.id]
+      \* the id everything is labelled with: the answer's for a full sync, the first id INFO reported when the stream continues
+      label == IF p.full THEN p.id ELSE info.id1
+      c2 == IF p.full THEN [id |-> label, l |-> p.off, r |-> p.off, snap |-> TRUE, w |-> <<>>, sw |-> s.src.log]
+            ELSE IF d.clear THEN [id |-> label, l |-> d.req.off, r |-> d.req.off, snap |-> FALSE, w |-> <<>>, sw |-> <<>>]
+            ELSE [s.cache EXCEPT !.id = label]
       inLog == c2.l <= d.readAt /\ d.readAt <= c2.r
       kind == IF p.full THEN "snapshot"
               ELSE IF inLog THEN "continue"
               ELSE IF c2.snap /\ d.readAt <= c2.l THEN "cachedSnapshot" ELSE "error"
-      note == [kind |-> kind, br |-> d.br, req |-> d.req, full |-> p.full, readAt |-> d.readAt, cpBefore |-> s.cp, cacheBefore |-> s.cache]
-  IN [s EXCEPT !.cache = c2,
-               !.run = CASE kind \in {"snapshot", "cachedSnapshot"} -> [up |-> TRUE, phase |-> "snap", rd |-> c2.l, last |-> note]
-                         [] kind = "continue" -> [up |-> TRUE, phase |-> "stream", rd |-> d.readAt, last |-> note]
-                         [] OTHER -> [up |-> FALSE, phase |-> "idle", rd |-> -1, last |-> note]]
+      \* the stored position lies on the current history: under the current id, or under the previous one up to the switch
+      sameHist == s.cp.id = s.src.id1 \/ (s.cp.id = s.src.id2 /\ s.cp.off + 1 <= s.src.second)
+      note == [kind |-> kind, br |-> d.br, req |-> d.req, full |-> p.full, readAt |-> d.readAt, cpBefore |-> s.cp, cacheBefore |-> s.cache,
+               sameHist |-> sameHist]
+      \* syncMeta re-keys the stored position to that id. It keeps the offset when the stream
+      \* continues; before a full sync it stores "none yet" in the same write (FixVoid; the defect kept the offset)
+      cp2 == IF p.full /\ FixVoid THEN [id |-> label, off |-> -1]
+             ELSE IF s.cp.id # None /\ s.cp.id # label THEN [id |-> label, off |-> s.cp.off] ELSE s.cp
+  IN [s EXCEPT !.cache = c2, !.cp = cp2,
+               !.run = CASE kind \in {"snapshot", "cachedSnapshot"} -> [up |-> TRUE, link |-> TRUE, phase |-> "snap", rd |-> c2.l, from |-> Len(s.tgt), last |-> note]
+                         [] kind = "continue" -> [up |-> TRUE, link |-> TRUE, phase |-> "stream", rd |-> d.readAt, from |-> Len(s.tgt), last |-> note]
+                         [] OTHER -> [up |-> FALSE, link |-> FALSE, phase |-> "idle", rd |-> -1, from |-> Len(s.tgt), last |-> note]]
 
 \* a command arrives from the source and is cached
-RecvE(s) == s.run.up /\ s.cache.r < s.src.len
-RecvF(s, n) == [s EXCEPT !.cache.r = n]          \* n in (cache.r, src.len]
+RecvE(s) == s.run.up /\ s.run.link /\ s.cache.r < s.src.len
+RecvF(s, n) == [s EXCEPT !.cache.r = n,           \* n in (cache.r, src.len]
+                         !.cache.w = @ \o [i \in 1..(n - s.cache.r) |-> s.src.log[s.cache.r + i]]]
 
+\* the snapshot replay begins: the stored position is void from here on
+SnapBeginE(s) == s.run.up /\ s.run.phase = "snap" /\ s.cp # [id |-> s.cache.id, off |-> -1]
+SnapBeginF(s) == [s EXCEPT !.cp = [id |-> s.cache.id, off |-> -1]]
 \* the snapshot is replayed (replace policy) and its offset stored
-ApplySnapE(s) == s.run.up /\ s.run.phase = "snap"
-ApplySnapF(s) == [s EXCEPT !.tgt = [i \in 1..s.cache.l |-> i], !.cp = [id |-> s.cache.id, off |-> s.cache.l],
-                           !.run.phase = "stream", !.run.rd = s.cache.l]
+ApplySnapE(s) == s.run.up /\ s.run.phase = "snap" /\ (FixVoid => s.cp = [id |-> s.cache.id, off |-> -1])
+ApplySnapF(s) == [s EXCEPT !.tgt = [i \in 1..s.cache.l |-> <<i, s.cache.sw[i]>>], !.cp = [id |-> s.cache.id, off |-> s.cache.l],
+                           !.run.phase = "stream", !.run.rd = s.cache.l, !.run.from = 0]
 
 \* ticker-driven mode: a command is applied; the stored position follows at the next tick
 ApplyE(s) == s.run.up /\ s.run.phase = "stream" /\ s.run.rd < s.cache.r
-ApplyF(s) == [s EXCEPT !.tgt = Append(@, s.run.rd + 1), !.run.rd = @ + 1]
+CacheElem(s, n) == <<n, s.cache.w[n - s.cache.l]>>      \* the cached command number n (l < n <= r)
+ApplyF(s) == [s EXCEPT !.tgt = Append(@, CacheElem(s, s.run.rd + 1)), !.run.rd = @ + 1]
 TickE(s) == s.run.up /\ s.run.phase = "stream" /\ s.run.rd >= 0
 TickF(s) == [s EXCEPT !.cp = [id |-> s.cache.id, off |-> s.run.rd]]
 
 \* transactional mode: n commands and the position in one target transaction
 BatchE(s, n) == s.run.up /\ s.run.phase = "stream" /\ n >= 0 /\ s.run.rd + n <= s.cache.r
-BatchF(s, n) == [s EXCEPT !.tgt = @ \o [i \in 1..n |-> s.run.rd + i], !.run.rd = @ + n,
+BatchF(s, n) == [s EXCEPT !.tgt = @ \o [i \in 1..n |-> CacheElem(s, s.run.rd + i)], !.run.rd = @ + n,
                           !.cp = [id |-> s.cache.id, off |-> s.run.rd + n]]
 
 \* the run ends (connection lost, target error, stop): nothing but the cache and the target survive
 RunEndE(s) == s.run.up
-RunEndF(s) == [s EXCEPT !.run.up = FALSE, !.run.phase = "idle"]
+RunEndF(s) == [s EXCEPT !.run.up = FALSE, !.run.link = FALSE, !.run.phase = "idle"]
+\* the process restarts and the cache does not survive it (memory cache; disk cache with an incomplete rdb file)
+CacheLostE(s) == s.cnt.closs < MaxCacheLoss
+CacheLostF(s) == [RunEndF(s) EXCEPT !.cache = [id |-> None, l |-> -1, r |-> -1, snap |-> FALSE, w |-> <<>>, sw |-> <<>>],
+                                    !.cnt.closs = @ + 1]
+\* the connection to the source is lost; the output goes on with what is cached until the run ends
+LinkDownE(s) == s.run.up /\ s.run.link
+LinkDownF(s) == [s EXCEPT !.run.link = FALSE]
 
 Write == WriteE(St) /\ Become(WriteF(St))
-Failover == FailoverE(St) /\ Become(FailoverF(St))
+Failover == \E k \in 0..src.len : FailoverE(St, k) /\ Become(FailoverF(St, k))
 Lose == LoseE(St) /\ Become(LoseF(St))
-Connect == ConnectE(St) /\ Become(ConnectF(St))
+Connect == ConnectE(St) /\ \E info \in Infos(St) : Become(ConnectF(St, info))
 Recv == RecvE(St) /\ Become(RecvF(St, cache.r + 1))
+SnapBegin == FixVoid /\ SnapBeginE(St) /\ Become(SnapBeginF(St))
 ApplySnap == ApplySnapE(St) /\ Become(ApplySnapF(St))
+CacheLost == CacheLostE(St) /\ Become(CacheLostF(St))
 Apply == ~Txn /\ ApplyE(St) /\ Become(ApplyF(St))
 Tick == ~Txn /\ TickE(St) /\ Become(TickF(St))
 Batch == Txn /\ \E n \in 0..2 : BatchE(St, n) /\ Become(BatchF(St, n))
-RunEnd == RunEndE(St) /\ cnt.ends < MaxEnds /\ Become([RunEndF(St) EXCEPT !.cnt.ends = @ + 1])
+\* a run whose connection is gone ends by itself; other run ends (target error, stop) are bounded
+RunEnd == RunEndE(St) /\ (run.link => cnt.ends < MaxEnds) /\ Become([RunEndF(St) EXCEPT !.cnt.ends = IF run.link THEN @ + 1 ELSE @])
+LinkDown == LinkDownE(St) /\ cnt.ends < MaxEnds /\ Become([LinkDownF(St) EXCEPT !.cnt.ends = @ + 1])
 
-Next == Write \/ Failover \/ Lose \/ Connect \/ Recv \/ ApplySnap \/ Apply \/ Tick \/ Batch \/ RunEnd
+Next == Write \/ Failover \/ Lose \/ Connect \/ Recv \/ SnapBegin \/ CacheLost \/ ApplySnap \/ Apply \/ Tick \/ Batch \/ RunEnd \/ LinkDown
 Spec == Init /\ [][Next]_vars
-FairSpec == Spec /\ WF_vars(Connect) /\ WF_vars(Recv) /\ WF_vars(ApplySnap) /\ WF_vars(Apply) /\ WF_vars(Batch)
+FairSpec == Spec /\ WF_vars(Connect) /\ WF_vars(Recv) /\ WF_vars(SnapBegin) /\ WF_vars(ApplySnap) /\ WF_vars(Apply) /\ WF_vars(Batch)
+                 /\ WF_vars(RunEndE(St) /\ ~run.link /\ Become(RunEndF(St)))
 
 (* ----------------------------- properties ---------------------------- *)
-Last(q) == IF q = <<>> THEN 0 ELSE q[Len(q)]
+Num(q) == [i \in 1..Len(q) |-> q[i][1]]
+Last(q) == IF q = <<>> THEN 0 ELSE q[Len(q)][1]
+SrcElem(n) == <<n, src.log[n]>>
 
-TypeOK == /\ src.len \in 0..MaxLen /\ cache.r <= src.len /\ cache.l <= cache.r
-          /\ run.rd <= cache.r
+TypeOK == /\ src.len \in 0..MaxLen /\ Len(src.log) = src.len /\ cache.l <= cache.r
+          /\ (cache.id # None => Len(cache.w) = cache.r - cache.l)
+          /\ (cache.snap => Len(cache.sw) = cache.l)
+          /\ (run.up => run.rd <= cache.r)
 
 \* C01/C02 across runs: the target's list is the stream without a hole: it starts at 1 and every element is the
 \* successor of, or a repetition from behind, the one before it
-E2E_NoGap == /\ (tgt # <<>> => tgt[1] = 1)
-             /\ \A i \in 1..(Len(tgt) - 1) : tgt[i + 1] <= tgt[i] + 1 /\ tgt[i + 1] >= 1
-\* nothing the source has not written
-E2E_NothingInvented == \A i \in 1..Len(tgt) : tgt[i] <= src.len
-\* transactional mode repeats nothing
-E2E_TxnExactlyOnce == Txn => tgt = [i \in 1..Len(tgt) |-> i]
-\* the stored position never claims more than the target holds, and names a history whose prefix the target holds
-E2E_PositionTruthful == cp.id # None => (cp.off <= Last(tgt) /\ cp.off <= src.len)
-\* C06: a run continues exactly from the stored position on the same data, or replays a snapshot
+E2E_NoGap == LET q == Num(tgt) IN
+             /\ (q # <<>> => q[1] = 1)
+             /\ \A i \in 1..(Len(q) - 1) : q[i + 1] <= q[i] + 1 /\ q[i + 1] >= 1
+\* C06: what a run delivers belongs to the history of the source it is connected to (nothing of another history,
+\* no cached bytes the current source never had)
+C06_DeliveredIsCurrentHistory ==
+  (run.up /\ run.link) => \A i \in (run.from + 1)..Len(tgt) : tgt[i][1] <= src.len /\ tgt[i] = SrcElem(tgt[i][1])
+\* ... and so is what the cache will deliver next
+C06_CacheIsCurrentHistory ==
+  (run.up /\ run.link /\ run.phase = "stream") =>
+     \A n \in (run.rd + 1)..cache.r : n <= src.len /\ CacheElem(St, n) = SrcElem(n)
+\* transactional mode repeats nothing and the target is a prefix of the source's history whenever a run is connected
+E2E_TxnExactlyOnce == Txn => Num(tgt) = [i \in 1..Len(tgt) |-> i]
+E2E_TxnPrefix == (Txn /\ run.up /\ run.link /\ run.phase = "stream") => \A i \in 1..Len(tgt) : i <= src.len /\ tgt[i] = SrcElem(i)
+\* the stored position never claims more than the target holds
+E2E_PositionTruthful == cp.id # None => cp.off <= Last(tgt)
+\* C06: a run continues exactly from the stored position, or replays a snapshot
 C06_ContinueFromStored ==
   (run.last.kind = "continue") =>
      /\ run.last.cpBefore.id # None /\ run.last.readAt = run.last.cpBefore.off
      /\ run.last.readAt >= cache.l
+C06_ContinuedSameHistory == (run.last.kind = "continue") => run.last.sameHist
+\* ... judged by content (an id can be re-keyed): transactional mode, whose stored position is exact - when a run continues
+\* the stream, everything the target holds up to that position is the connected source's history
+C06_ContinuedOnSameData ==
+  (Txn /\ run.up /\ run.link /\ run.phase = "stream" /\ run.last.kind = "continue") =>
+     \A i \in 1..Len(tgt) : i <= src.len /\ tgt[i] = SrcElem(i)
 C06_SnapshotOtherwise ==
   (run.last.kind \in {"snapshot", "cachedSnapshot"} /\ run.phase = "snap") => cache.snap /\ run.rd = cache.l
 \* the reader never runs ahead of what the target holds (a gap in the making)
 E2E_ReaderNotAhead == (run.up /\ run.phase = "stream") => run.rd <= Last(tgt)
 
-\* liveness (FairSpec, faults bounded by the constants): everything written arrives
-E2E_Delivery == <>[](Last(tgt) = src.len /\ src.len = MaxLen)
+\* liveness (FairSpec, faults bounded by the constants): once the source is quiet, everything of its history is at the target
+AllDelivered == \A n \in 1..src.len : \E i \in 1..Len(tgt) : tgt[i] = SrcElem(n)
+E2E_Delivery == <>[]AllDelivered
 =============================================================================
